@@ -72,6 +72,15 @@ class SimTask(asyncio.Task):
     def __eq__(self, other):
         return self is other
 
+    def cancel(self, msg=None):
+        # seam: a cancellation request for the task that wraps a job
+        job = getattr(self, '_job', None)
+        if job is not None and not self.done():
+            nid = getattr(job, 'nid', None)
+            if nid is not None:
+                self._sim_ctx.log('cancel_req', nid)
+        return super().cancel(msg)
+
 
 def make_task_factory(ctx):
     def factory(loop, coro, **kwds):
@@ -79,6 +88,7 @@ def make_task_factory(ctx):
         task = SimTask.__new__(SimTask)
         ctx.n_tasks += 1
         task._sim_hash = hash((ctx.salt, -ctx.n_tasks))
+        task._sim_ctx = ctx
         task.__init__(coro, loop=loop, **kwds)
         ctx.tasks.append(task)
         return task
